@@ -74,6 +74,31 @@ def rename_body(env, p):
         labels = [str(x) for x in (lab.values if not hasattr(lab, "_col") else lab)]
         exp_labels = [cur[ci] for ci, nb in enumerate(layout) for _ in range(nb)]
         env.check(labels == exp_labels, f"bin table chromosome labels {labels} are not the new names {exp_labels}")
+        # every name-based view: the joined pixel table names each pixel's chromosomes through the bin table
+        for obj, which in ((re, "after reopening"), (clr, "on the same object")):
+            if K and p["enum"]:
+                # (integer-encoded files: the join attaches the integer chromosome ids, which a renaming does not touch)
+                px = obj.pixels(join=True)[:]
+                for side, bcol in (("chrom1", b1), ("chrom2", b2)):
+                    col = px[side]
+                    if env.symbolic and hasattr(col, "cat") and hasattr(col, "_col") and hasattr(col._col, "codes"):
+                        # categorical column with symbolic codes: label k is categories[code_k]; expected label of pixel k is the name of its bin's chromosome
+                        cats = [str(x) for x in col.cat.categories]
+                        codes = vals(col.cat.codes)
+                        conds = []
+                        for k_, x in enumerate(bcol):
+                            for bi_, lab_ in enumerate(exp_labels):
+                                conds.append(or_(x != bi_, codes[k_] == (cats.index(lab_) if lab_ in cats else -7)))
+                        env.check(and_(*conds), f"joined pixel table {which}: {side} labels (categories {cats}) are not the new names of the pixels' bins")
+                    elif not env.symbolic:
+                        # (the pandas model returns plain ids for this column after some renamings; the joined table is then judged on the
+                        # real stack only, which runs for every explored path)
+                        got = [str(x) for x in vals(col)]
+                        exp_ = [exp_labels[int(x)] for x in bcol]
+                        env.check(got == exp_, f"joined pixel table {which}: {side} labels {got} are not the new names {exp_}")
+            lab2 = obj.bins()["chrom"][:]
+            got2 = [str(x) for x in vals(lab2)]
+            env.check(got2 == exp_labels, f"bins()['chrom'] {which}: {got2} are not the new names {exp_labels}")
         after = _raw(env, path)
         ok = before.keys() == after.keys() and all(len(before[k]) == len(after[k]) for k in before)
         env.check(and_(ok, *[a == b for k in before for a, b in zip(before[k], after[k])]) if ok else False,
@@ -99,6 +124,42 @@ def rename_body(env, p):
 rename_sym, rename_real = both(rename_body)
 
 
+def reuse_body(env, p):
+    """one renaming map applied to several coolers in turn (a batch of samples, the levels of a multi-resolution file): each cooler is
+    renamed by the map it is given, whatever was renamed before it - the first cooler lacks the last chromosome of the second"""
+    env.reset()
+    co = env.cooler
+    layout = p["layout"]
+    nch = len(layout)
+    names = [f"c{i}" for i in range(nch)]
+    from .model import concrete_bins
+    paths = []
+    for tag, lay in (("x", layout[:-1]), ("y", layout)):
+        bins = concrete_bins(lay, "fixed")
+        b1, b2, v = env_pixels(env, sum(lay), 1, prefix=tag)
+        path = scratch_file(f"c18_{tag}.cool")
+        env.build_cooler(path, bins, b1, b2, {"count": v})
+        paths.append(path)
+    flags = [env.bool(f"ren_{i}") for i in range(nch)]
+    mapping = {names[i]: NEW[names[i]] for i in range(nch) if bool(flags[i])}
+    env.cover("renames_missing_chromosome", names[-1] in mapping)
+    if any(len(set(asked_names)) != len(asked_names) for asked_names in ([mapping.get(x, x) for x in names], [mapping.get(x, x) for x in names[:-1]])):
+        env.assume(False)       # duplicate names are not a renaming
+    asked = dict(mapping)       # what the caller asked for (the object handed to the library is the caller's own)
+    out = []
+    for path, lay in zip(paths, (layout[:-1], layout)):
+        clr = co.Cooler(path)
+        co.rename_chroms(clr, mapping)
+        exp = [asked.get(x, x) for x in names[:len(lay)]]
+        env.check(list(clr.chromnames) == exp and list(co.Cooler(path).chromnames) == exp,
+                  f"cooler with chromosomes {names[:len(lay)]} renamed with {asked}: names are {list(clr.chromnames)}, expected {exp}")
+        out.append(list(clr.chromnames))
+    return out
+
+
+reuse_sym, reuse_real = both(reuse_body)
+
+
 CHECKS = [
     Check("rename", lambda tier: [dict(layout=l, K=K, steps=s, enum=e) for l, K, s in ([([2, 1], 2, 1), ([1, 1, 1], 1, 2)] if tier == "quick" else
                                                                                        [([2, 1], 2, 1), ([1, 1, 1], 2, 2), ([2, 2], 3, 2)]) for e in (True, False)]
@@ -109,6 +170,11 @@ CHECKS = [
               "pixels, indexes unchanged; extents and matrix fetch by new name == by old name",
           bounds=dict(quick="<=3 chromosomes, <=3 bins with symbolic widths, K<=2 pixels, <=2 renamings", thorough="<=4 bins, K<=3"),
           stubs=("E3", "E4"), timeout=2400, split_depth=5),
+    Check("map_reuse", lambda tier: [dict(layout=[1, 2]), dict(layout=[1, 1, 1])] if tier == "quick" else [dict(layout=[1, 2]), dict(layout=[1, 1, 1]), dict(layout=[2, 1, 2, 1])],
+          reuse_sym, reuse_real, labels=("renames_missing_chromosome",),
+          doc="one renaming map (every subset of names) applied to two coolers in turn, the first of which lacks the last chromosome: each is renamed "
+              "by the map it was given",
+          bounds=dict(quick="<=3 chromosomes", thorough="<=4"), stubs=("E3", "E4")),
 ]
 
 MUTANTS = [
